@@ -2,6 +2,8 @@
 
 from __future__ import annotations
 
+from ast import unparse as ast_unparse
+
 import ast
 from typing import Any, Dict, List, Optional, Tuple
 
@@ -121,11 +123,138 @@ def render_obligations(ctx: Ctx, I: Interp) -> None:
     ctx.min_count("HTMLDocument.render paths", n, 1)
 
 
+def forwarding_chain(ctx: Ctx, I: Interp, rule: str) -> None:
+    """lib_prefix / include_version travel unchanged: render -> _gen_html_tag_tree -> _hoist_head_content -> as_html_tags -> as_dict
+    -> source_path_map.  One dropped link makes the URLs in the page disagree with where save_html copies the files."""
+    prog = ctx.prog
+
+    def link(qual: str, callee: str, self_kind: str, what: str, recv_is_self: bool = False) -> None:
+        fn = prog.function(CORE, qual)
+        names = [a.arg for a in fn.args.args + fn.args.kwonlyargs]
+        ctx.require({"lib_prefix", "include_version"} <= set(names), f"{qual}: parameters lib_prefix / include_version vanished")
+        cfn = prog.function(CORE, callee)
+        cnames = [a.arg for a in cfn.args.args + cfn.args.kwonlyargs]
+        is_static = any(ast_unparse(d).split(".")[-1] == "staticmethod" for d in cfn.decorator_list)
+        cfg = Config()
+        cfg.opaque_all = True
+        cfg.coarse_counts = True
+
+        def mk(run: Any):
+            b: Dict[str, Any] = {}
+            s = None
+            for i, nm in enumerate(names):
+                if nm == "lib_prefix":
+                    b[nm] = SObj("lib_prefix", {"STR", "NONE"})
+                elif nm == "include_version":
+                    b[nm] = SBool(("param", "include_version"))
+                elif i == 0:
+                    s = SObj(nm, {self_kind})
+                    b[nm] = s
+                else:
+                    b[nm] = SObj(nm, ALL_KINDS)
+            run.__dict__["o"] = (b["lib_prefix"], b["include_version"])
+            return (b, s if names[0] == "self" else None)
+
+        n = 0
+        for l in I.run_function(CORE, qual, mk, cfg):
+            if l.kind != "return":
+                continue
+            lp, iv = l.run.__dict__["o"]
+            calls = [e for e in l.effects if e.kind == "call" and (getattr(e.target, "qual", "") == callee or (e.extra or {}).get("name") == callee.split(".")[-1])]
+            if not calls:
+                # the callee may be reached inside a comprehension: look at map templates
+                for o in _iter_objs(l):
+                    c = _call_of(o)
+                    if c is not None and (getattr(c.get("func"), "qual", "") == callee or c.get("name") == callee.split(".")[-1]):
+                        calls.append(type("C", (), {"value": c.get("args", []), "extra": {"kwargs": c.get("kwargs", {})}})())
+            for e in calls:
+                n += 1
+                pos = list(e.value or [])
+                params = cnames if is_static else cnames[1:]
+                bound = dict(zip(params, pos))
+                bound.update((e.extra or {}).get("kwargs") or {})
+                ok = bound.get("lib_prefix") is lp and bound.get("include_version") is iv
+                if what == "source_path_map" and "lib_prefix" in bound and bound.get("lib_prefix") is not lp:
+                    ok = False
+                labels = [str(lbl) for _, lbl in l.atoms][:3]
+                ctx.check(ok, rule, f"{qual} hands its lib_prefix and include_version to {callee.split('.')[-1]}", f"{CORE}:{qual}",
+                          f"{callee.split('.')[-1]}({ {k: short(v) for k, v in bound.items() if k in ('lib_prefix', 'include_version')} }) on path {labels}",
+                          f"{qual} calls {callee.split('.')[-1]} without its own lib_prefix / include_version (got "
+                          f"{ {k: short(v) for k, v in bound.items() if k in ('lib_prefix', 'include_version')} } on path {labels}): the URLs written into the page "
+                          f"no longer match the directory the files are copied to",
+                          witness="HTMLDocument(tags.html(dep)).save_html(f, include_version=False)")
+        ctx.min_count(f"{qual} -> {callee.split('.')[-1]} call sites", n, 1)
+
+    link("HTMLDocument.render", "HTMLDocument._gen_html_tag_tree", "HTMLDOC", "gen")
+    link("HTMLDocument._gen_html_tag_tree", "HTMLDocument._hoist_head_content", "HTMLDOC", "hoist")
+    link("HTMLDocument._hoist_head_content", "HTMLDependency.as_html_tags", "TAG", "tags")
+    link("HTMLDependency.as_html_tags", "HTMLDependency.as_dict", "HTMLDEP", "dict")
+    link("HTMLDependency.as_dict", "HTMLDependency.source_path_map", "HTMLDEP", "spm")
+
+
 def _iter_objs(l: Any) -> List[Any]:
     out = []
     for e in l.effects:
         out += [e.target, e.key] + (list(e.value) if isinstance(e.value, list) else [e.value])
     return [o for o in out if isinstance(o, (SObj, SOpaque))]
+
+
+def init_obligations(ctx: Ctx, I: Interp) -> None:
+    """The document owns its content list: __init__ builds a new TagList from the arguments on every path, so that
+    append() (which mutates that list in place) cannot reach a list the caller - or another document - still holds."""
+    prog = ctx.prog
+    where = f"{CORE}:HTMLDocument.__init__"
+    fn = prog.function(CORE, "HTMLDocument.__init__")
+    a = fn.args
+    ctx.require(a.vararg is not None, "HTMLDocument.__init__ no longer takes *args")
+    cfg = Config()
+    cfg.opaque_all = True
+    cfg.coarse_counts = True
+
+    def mk(run: Any):
+        s = SObj("self", {"HTMLDOC"}, origin="new")
+        va = SObj(a.vararg.arg, {"TUPLE"})
+        run.__dict__["o"] = (s, va)
+        b: Dict[str, Any] = {a.args[0].arg: s, a.vararg.arg: va}
+        if a.kwarg:
+            b[a.kwarg.arg] = SObj(a.kwarg.arg, {"DICT"})
+        return (b, s)
+
+    n = 0
+    for l in I.run_function(CORE, "HTMLDocument.__init__", mk, cfg):
+        if l.kind != "return":
+            continue
+        s, va = l.run.__dict__["o"]
+        st = [e for e in l.effects if e.kind == "store_attr" and e.target is s and e.key == "_content"]
+        ctx.require(len(st) >= 1, "HTMLDocument.__init__ does not set _content on some path")
+        v = st[-1].value
+        n += 1
+        fresh = isinstance(v, SNew) and v.cls_name == "TagList"
+        labels = [str(lbl) for _, lbl in l.atoms][:3]
+        ctx.check(fresh, "C11.R2", "the document's content is a TagList built by the constructor from the arguments", where,
+                  f"_content := {short(v)} on path {labels}",
+                  f"on the path {labels} HTMLDocument.__init__ stores {short(v)} as its content instead of building its own TagList: append() on this document "
+                  f"then changes a list the caller (or another document) still uses",
+                  witness="tl = TagList(div()); a = HTMLDocument(tl); b = HTMLDocument(tl); a.append(dep); b.render()")
+    ctx.min_count("HTMLDocument.__init__ paths", n, 1)
+
+
+def _exactly_one(atoms: Any) -> bool:
+    """Some collection's count decisions on this path cover every node kind and add up to exactly one element."""
+    by: Dict[Any, List[Tuple[Any, str]]] = {}
+    for a, lab in atoms:
+        if isinstance(a, tuple) and a[0] == "count":
+            by.setdefault(a[1], []).append((frozenset(a[2]), str(lab)))
+        if isinstance(a, tuple) and a[0] == "len-cmp" and a[2] == "==" and a[3] == 1 and lab is True:
+            return True
+    for uid, groups in by.items():
+        cov = frozenset().union(*[g for g, _ in groups])
+        if not (frozenset(NODE_KINDS) - {"TAGLIST"} <= cov):   # a TagList never holds a TagList (flattened)
+            continue
+        labs = [lab for _, lab in groups]
+        if all(x in ("n=0", "n=1") for x in labs) and labs.count("n=1") == 1:
+            return True
+    return False
 
 
 def case_table(ctx: Ctx, I: Interp) -> None:
@@ -152,13 +281,25 @@ def case_table(ctx: Ctx, I: Interp) -> None:
         is_body = "== 'body'" in labels
         hoist = [e for e in l.effects if e.kind == "call" and getattr(e.target, "qual", "") == "HTMLDocument._hoist_head_content"]
         ctx.require(len(hoist) == 1, "_gen_html_tag_tree: not exactly one _hoist_head_content call")
-        hargs = list(hoist[0].value) + list(((hoist[0].extra or {}).get("kwargs") or {}).values())
+        hfn = prog.function(CORE, "HTMLDocument._hoist_head_content")
+        hnames = [a.arg for a in hfn.args.args + hfn.args.kwonlyargs]
+        bound = dict(zip(hnames, list(hoist[0].value)))
+        bound.update((hoist[0].extra or {}).get("kwargs") or {})
+        ctx.require(not ((hoist[0].extra or {}).get("dstar")), "_hoist_head_content called with **kwargs")
+        hargs = [bound.get(hnames[0]), bound.get("lib_prefix", "<default>"), bound.get("include_version", "<default>")] + \
+            [v for k, v in bound.items() if k not in (hnames[0], "lib_prefix", "include_version")]
         tree = hargs[0] if hargs else None
         ctx.check(len(hargs) == 3 and hargs[1] is lp and hargs[2] is iv, "C11.R2", "lib_prefix and include_version reach _hoist_head_content on every branch", GEN,
                   f"case {'html' if is_html else 'body' if is_body else 'fragment'}: _hoist_head_content({[short(x) for x in hargs]})",
                   f"in the {'sole <html>' if is_html else 'sole <body>' if is_body else 'fragment'} case _hoist_head_content is called with "
                   f"{[short(x) for x in hargs[1:]]} instead of the caller's lib_prefix and include_version: dependency URLs ignore the requested setting",
                   witness="HTMLDocument(tags.html(dep)).render(include_version=False)")
+        if is_html or is_body:
+            ctx.check(_exactly_one(l.atoms), "C11.R2", f"the sole-<{'html' if is_html else 'body'}> case is taken only when the content is exactly that one element", GEN,
+                      f"case {'html' if is_html else 'body'} under {[str(lbl) for _, lbl in l.atoms][:4]}",
+                      f"the sole-<{'html' if is_html else 'body'}> case is chosen on a path that does not establish that the content has exactly one element "
+                      f"(conditions {[str(lbl) for _, lbl in l.atoms][:4]}): siblings of that tag (dependencies, head_content(), text) are dropped from the document",
+                      witness="doc = HTMLDocument(tags.body('x')); doc.append(head_content(tags.title('t'))); doc.render()")
         v = l.value
         ctx.check(_q(_call_of(v)) == "HTMLDocument._hoist_head_content", "C11.R2", "the result is the hoisted tree", GEN, f"returns {short(v)}", "the tree returned is not the one whose head was filled")
         if is_html:
@@ -189,13 +330,14 @@ def case_table(ctx: Ctx, I: Interp) -> None:
 def hoist_obligations(ctx: Ctx, I: Interp) -> None:
     prog = ctx.prog
     fn = prog.function(CORE, "HTMLDocument._hoist_head_content")
-    ps = [a.arg for a in fn.args.args]
+    ps = [a.arg for a in fn.args.args + fn.args.kwonlyargs]
+    ctx.require(len(ps) == 3 and set(ps[1:]) == {"lib_prefix", "include_version"}, "_hoist_head_content signature changed")
 
     def mk(run: Any):
         x = SObj(ps[0], {"TAG"})
         lp, iv = SObj("lib_prefix", {"STR", "NONE"}), SBool(("param", "include_version"))
         run.__dict__["o"] = (x, lp, iv)
-        return ({ps[0]: x, ps[1]: lp, ps[2]: iv}, None)
+        return ({ps[0]: x, "lib_prefix": lp, "include_version": iv}, None)
 
     # ---- the head search loop ----------------------------------------------------------------------------------
     cfg = Config()
@@ -455,6 +597,7 @@ def check(ctx: Ctx) -> None:
         "The complete document string is not decided.")
     ctx.trust("Engine A abstract semantics", "list.insert/append/extend semantics")
     I = Interp(ctx.prog)
+    init_obligations(ctx, I)
     render_obligations(ctx, I)
     case_table(ctx, I)
     hoist_obligations(ctx, I)
